@@ -88,6 +88,48 @@ def load_known() -> List[Dict[str, Any]]:
     return data.get('findings', [])
 
 
+class Renamed:
+    """Run another property's rule function under this property's rule ids.  `mapping` = {foreign rule id: own rule id};
+    obligations of rules that are not in the mapping are dropped (they belong to the other property), as are its floors."""
+
+    def __init__(self, ctx, mapping, key_filter=None):
+        self._ctx = ctx
+        self._map = dict(mapping)
+        self._kf = key_filter
+
+    def __getattr__(self, k):
+        return getattr(self._ctx, k)
+
+    def _keep(self, rule, key):
+        return rule in self._map and (self._kf is None or self._kf(key))
+
+    def ok(self, rule, key, *a, **kw):
+        if self._keep(rule, key):
+            self._ctx.ok(self._map[rule], key, *a, **kw)
+
+    def bad(self, rule, key, *a, **kw):
+        if self._keep(rule, key):
+            self._ctx.bad(self._map[rule], key, *a, **kw)
+
+    def check(self, cond, rule, key, *a, **kw):
+        if self._keep(rule, key):
+            return self._ctx.check(cond, self._map[rule], key, *a, **kw)
+        return cond
+
+    def floor(self, rule, *a, **kw):
+        if rule in self._map and self._kf is None:
+            self._ctx.floor(self._map[rule], *a, **kw)
+
+    def info(self, msg):
+        for r, own in self._map.items():
+            if msg.startswith(r + ' '):
+                self._ctx.info(own + msg[len(r):])
+                return
+
+    def rule(self, *a, **kw):
+        pass
+
+
 def run_check(pid: str, tier: str, replay: Optional[str] = None, repo_root: Optional[str] = None,
               write_evidence: bool = True, quiet: bool = False) -> int:
     t0 = time.time()
